@@ -85,4 +85,99 @@ theorem readOf_spec (X : Ctx) (src : VSt) (es : List Elem) (h : Abs X src es) (i
   simp only [VM.bind_run, onVec_ok _ _ s _ _ hin, VM.pure_run]
   rfl
 
+theorem lift_new_empty (X : Ctx) (hz : 0 < X.c.elemSize) (s : St) :
+    VM.lift X (new X.env) { s with v := {} } = (.ok (), { s with v := {} }) := by
+  rw [lift_run, new_spec]
+  have : X.env.c.elemSize > 0 := hz
+  simp only [this, if_true]
+  simp [GS.reset, hsOf, replay, replay1, withHdr]
+
+theorem dropVec_ok (X : Ctx) (hq : ∀ k, X.o.panicAt k = false) (s : St) (es : List Elem) (h : Abs X s.v es) :
+    ∃ s', Vec.dropVec X s = (.ok (), s') := by
+  obtain ⟨h1, h2⟩ := dropVec_spec X hq s es h
+  cases hd : s.v.isDefault with
+  | true => exact ⟨s, h1 hd⟩
+  | false => obtain ⟨b, _, hr⟩ := h2 hd; exact ⟨_, hr⟩
+
+/-- a local vector built by a computation that keeps it well formed: `withLocal` hands it out on
+    success and destroys it on a sanctioned stop, restoring the focus either way -/
+theorem withLocal_spec {α} (X : Ctx) (hq : ∀ k, X.o.panicAt k = false) (x : VM α) (s : St) (Q : α → St → Prop)
+    (hx : (∃ a s', x { s with v := {} } = (.ok a, s') ∧ Q a s') ∨
+          (∃ p s' acc, x { s with v := {} } = (.error p, s') ∧ Panic.benign p = true ∧ Abs X s'.v acc)) :
+    (∃ a s', Vec.withLocal X {} x s = (.ok (a, s'.v), { s' with v := s.v }) ∧ Q a s') ∨
+    (∃ p s', Vec.withLocal X {} x s = (.error p, s') ∧ Panic.benign p = true ∧ s'.v = s.v) := by
+  unfold Vec.withLocal
+  rcases hx with ⟨a, s', hr, hQ⟩ | ⟨p, s', acc, hr, hb, habs⟩
+  · exact .inl ⟨a, s', by rw [hr], hQ⟩
+  · rw [hr]
+    simp only
+    by_cases hu : VM.unwinds p = true
+    · obtain ⟨s2, hd⟩ := dropVec_ok X hq s' acc habs
+      rw [if_pos hu, hd]
+      exact .inr ⟨p, _, rfl, hb, rfl⟩
+    · rw [if_neg hu]
+      exact .inr ⟨p, _, rfl, hb, rfl⟩
+
+/-- the values a scripted iterator yields before its first `None` -/
+def takeSome : Vec.IterScript → List Int
+  | [] => []
+  | none :: _ => []
+  | some v :: rest => v :: takeSome rest
+
+/-- what is left of the script after the loop stopped at the first `None` -/
+def afterNone : Vec.IterScript → Vec.IterScript
+  | [] => []
+  | none :: rest => rest
+  | some _ :: rest => afterNone rest
+
+theorem mkElem_run (v : Int) (s : St) :
+    VM.mkElem v s = (.ok ⟨s.sys.nextId, v⟩, { s with sys := { s.sys with nextId := s.sys.nextId + 1 } }) := by
+  simp [VM.mkElem, VM.freshId, VM.bind_run]
+
+/-- `for x in iter { v.push(x) }` with ANY scripted iterator (it may yield again after `None`: the
+    loop never polls it again): appends exactly the items before the first `None`, or stops in a
+    sanctioned way with the vector well formed -/
+theorem forIter_push_spec (X : Ctx) (hq : ∀ k, X.o.panicAt k = false) :
+    ∀ (it : Vec.IterScript) (fuel : Nat) (s : St) (acc : List Elem), it.length < fuel → Abs X s.v acc →
+    (∃ s' new, Vec.forIter X (Vec.push X) fuel it s = (.ok (afterNone it), s') ∧ Abs X s'.v (acc ++ new) ∧
+        new.map (·.val) = takeSome it) ∨
+    (∃ p s' acc', Vec.forIter X (Vec.push X) fuel it s = (.error p, s') ∧ Panic.benign p = true ∧ Abs X s'.v acc') := by
+  intro it
+  induction it with
+  | nil =>
+    intro fuel s acc hf h
+    cases fuel with
+    | zero => omega
+    | succ fuel =>
+      refine .inl ⟨{ s with sys := { s.sys with cbIdx := s.sys.cbIdx + 1 } }, [], ?_, by simpa using h, rfl⟩
+      unfold Vec.forIter
+      simp only [VM.bind_run, VM.callback, hq, Bool.false_eq_true, if_false, VM.pure_run, afterNone]
+  | cons o rest ih =>
+    intro fuel s acc hf h
+    cases fuel with
+    | zero => omega
+    | succ fuel =>
+      cases o with
+      | none =>
+        refine .inl ⟨{ s with sys := { s.sys with cbIdx := s.sys.cbIdx + 1 } }, [], ?_, by simpa using h, rfl⟩
+        unfold Vec.forIter
+        simp only [VM.bind_run, VM.callback, hq, Bool.false_eq_true, if_false, VM.pure_run, afterNone]
+      | some v =>
+        let s1 : St := { s with sys := { s.sys with cbIdx := s.sys.cbIdx + 1 } }
+        let s2 : St := { s1 with sys := { s1.sys with nextId := s1.sys.nextId + 1 } }
+        have hp := push_spec X s2 acc ⟨s1.sys.nextId, v⟩ h
+        unfold Vec.forIter
+        simp only [VM.bind_run, VM.callback, hq, Bool.false_eq_true, if_false, mkElem_run]
+        generalize hout : Vec.push X ⟨s1.sys.nextId, v⟩ s2 = out at hp
+        cases hp with
+        | pushed s' habs _ =>
+          simp only
+          rcases ih fuel s' (acc ++ [⟨s1.sys.nextId, v⟩]) (by simp at hf; omega) habs with
+            ⟨s'', new, hrun, habs', hv⟩ | ⟨p, s'', acc', hrun, hb, habs'⟩
+          · refine .inl ⟨s'', ⟨s1.sys.nextId, v⟩ :: new, ?_, by simpa using habs', by simp [takeSome, hv]⟩
+            rw [hrun]; rfl
+          · exact .inr ⟨p, s'', acc', hrun, hb, habs'⟩
+        | stopped p s' hv hb =>
+          exact .inr ⟨p, s', acc, rfl, hb, by rw [hv]; exact h⟩
+
 end MV
